@@ -137,8 +137,16 @@ def one(ctx, i, tmpdir):
         feats.append((fi, fo))
     if not pairs:
         return
+    bad_input = (i % 11 == 8) and not evalmode
     if bad_address:
         pairs[-1] = (pairs[-1][0], pairs[-1][1][:-1] + ["zq_no_such_param"])
+    if bad_input:
+        # an INPUT address that does not resolve; prefer an assignment/attribute as the output target
+        anns = [l for l in out_anns if tuple(l["path"]) not in used_out]
+        tgt = list(rng.choice(anns)["path"]) if anns else pairs[-1][1]
+        pairs[-1] = (pairs[-1][0][:-1] + ["zq_no_such_input"], tgt)
+        wrap = None
+        bad_address = True
     in_fn, out_fn = os.path.join(tmpdir, "in_{}.py".format(i)), os.path.join(tmpdir, "out_{}.py".format(i))
     with open(in_fn, "w") as f:
         f.write(in_src)
@@ -174,6 +182,8 @@ def one(ctx, i, tmpdir):
     ctx.case((i, ctx.shard[0], tuple(map(tuple, (p[1] for p in pairs))), wrap, evalmode), nontrivial=not bad_address,
              sample={"pairs": [[".".join(a), ".".join(b)] for a, b in pairs], "wrap": wrap, "eval": evalmode,
                      "input": in_src[:400], "output": out_src[:400]}, sample_key=(len(pairs), evalmode, bad_address))
+    ctx.feature("bad_input_address" if bad_input else ("bad_output_address" if bad_address else "resolvable"))
+    base["bad_input"] = bad_input
     ctx.feature("pairs={}".format(len(pairs)))
     ctx.feature("eval" if evalmode else "no_eval")
     ctx.feature("wrap" if wrap else "no_wrap")
